@@ -295,10 +295,12 @@ Not adopted (see `seeded/_not_adopted/README.md`): C16-2, C16-3 (outside the sta
 tiers = '''
 ## 11. Tiers, timings, reproducibility
 
-`bin/check <ID> quick` is meant for every change (measured wall times on 16 cores, unchanged tree): C01 75 s,
-C02 80-100 s, C03 100-127 s, C04 45-50 s, C05 67 s, C06 48 s, C07 32 s, C08 19 s, C09 7 s, C10 80 s, C11 30 s,
-C12 11 s, C13 12 s, C14 80 s, C15 24 s, C16 15 s, C17 22 s, C18 55 s, C19 24 s, C20 22 s. `thorough` (measured: C05 915 s, C06 64 s, C07 62 s, C08 142 s, C09 9 s, C10 370 s, C11 317 s, C12 58 s, C13 92 s, C14 144 s,
-C15 59 s, C16 49 s, C17 391 s, C18 508 s, C19 248 s, C20 406 s) uses the larger
+`bin/check <ID> quick` is meant for every change (measured wall times on 16 cores, unchanged tree, machine otherwise
+idle; two to three times as long beside other jobs): C01 110 s, C02 100 s, C03 230 s, C04 50 s, C05 160 s, C06 50 s,
+C07 50 s, C08 20 s, C09 11 s, C10 140 s, C11 100 s, C12 100 s, C13 30 s, C14 60 s, C15 32 s, C16 16 s, C17 50 s, C18 160 s,
+C19 24 s, C20 22 s. `thorough` (measured, partly beside other jobs: C01 2880 s, C02 2160 s, C03 3670 s, C04 2100 s,
+C05 1370 s, C06 105 s, C07 133 s, C08 157 s, C09 93 s, C10 1470 s, C11 532 s, C12 560 s, C13 183 s, C14 302 s, C15 101 s,
+C16 49 s, C17 568 s, C18 857 s, C19 248 s, C20 406 s) uses the larger
 configs named in each check (all scenarios, all pairs / triples, more walks, repetitions of schedule-dependent
 legs). Every run takes `VERIF_SEED` (default 1) for sampling, payload bytes and simulation seeds; evidence files
 record the TLC runs (config, states, wall time), the numbers of behaviours / cases / records and samples of them.
